@@ -299,7 +299,8 @@ def run(ctx):
         progs.append((pid, src, {}))
     # exhaustive small scope: every expression switch with 1-3 cases, default at every position or absent,
     # every fallthrough subset, tagged and tagless, run on every selecting value
-    msrc, nsw = g9prog.switch_matrix_program()
+    msrc, swspecs = g9prog.switch_matrix_program()
+    nsw = len(swspecs)
     progs.append(("det:switch-matrix", msrc, {}))
     # every statement-kind template once, whatever the seed
     ksrc, kfeat = g9prog.statement_kinds_program(vlib.SplitMix(0xC01))
@@ -342,6 +343,24 @@ def run(ctx):
         return n, ra, rb
     with ThreadPoolExecutor(max_workers=8) as ex:
         results = list(ex.map(both, names))
+    # K-diff of the switch semantics: every line "<function> <value> <markers>" printed by the switch matrix, built as
+    # Go and built as XGo, against the extracted switch_exec
+    sw_lines, sw_expect_keys = [], []
+    for (fn, ncase, clauses) in swspecs:
+        enc = " ".join(("d:99:%d" % f) if kind == "default" else ("c%d:%d:%d" % (v, v, f)) for kind, v, f in clauses)
+        for x in range(ncase + 1):
+            sw_lines.append("SW %d %s" % (x, enc))
+            sw_expect_keys.append("%d %d" % (fn, x))
+    rcm, swout = ctx.run([model], input="\n".join(sw_lines) + "\n")
+    sw_model = []
+    for key, l in zip(sw_expect_keys, swout.splitlines()):
+        marks = [("d" if m == "99" else "c" + m) for m in l.split()[1:]]
+        sw_model.append((key + " " + "".join(m + " " for m in marks)).rstrip())
+    for n, ra, rb in results:
+        if ids[n] == "det:switch-matrix":
+            for who, r in (("go", ra), ("xgo", rb)):
+                got = [l.rstrip() for l in r[1].splitlines()]
+                ctx.diff_lines("switch_exec~%s build of the switch matrix" % who, sw_expect_keys, "\n".join(got), "\n".join(sw_model))
     outcome = {}
     nontrivial = set()
     samples = []
@@ -369,6 +388,11 @@ def run(ctx):
         elif ra != rb:
             kind = "behaviour-differs"
             what = "exit %s vs %s" % (ra[0], rb[0]) if ra[0] != rb[0] else ("stdout differs" if ra[1] != rb[1] else "panic value differs")
+            la, lb = ra[1].splitlines(), rb[1].splitlines()
+            for k in range(max(len(la), len(lb))):
+                if k >= len(la) or k >= len(lb) or la[k] != lb[k]:
+                    what += "; first difference at output line %d: Go %r, XGo %r" % (k + 1, la[k] if k < len(la) else None, lb[k] if k < len(lb) else None)
+                    break
             ctx.fail(key, "%s: built as Go and as XGo the program behaves differently (%s)" % (pid, what),
                      {"go_source": src, "as_go": {"exit": ra[0], "stdout": ra[1][:2000], "stderr_head": ra[2][:500]},
                       "as_xgo": {"exit": rb[0], "stdout": rb[1][:2000], "stderr_head": rb[2][:500]}})
@@ -380,7 +404,7 @@ def run(ctx):
         outcome[kind] = outcome.get(kind, 0) + 1
         if len(samples) < 3 and pid.startswith("gen:"):
             samples.append({"id": pid, "lines_of_source": len(src.splitlines()), "exit": ra[0], "stdout_lines": len(ra[1].splitlines()), "stderr_head": ra[2][:80]})
-    ctx.cover(evaluations=len(pairs) + len(progs), distinct_nontrivial=len(set(m for _, m in pairs)) + len(nontrivial),
+    ctx.cover(evaluations=len(pairs) + len(progs) + 2 * len(sw_model), distinct_nontrivial=len(set(m for _, m in pairs)) + len(nontrivial),
               samples=[{"decls": pairs[1][1], "impl": proj[1]}] + samples,
               rule="norm K-diff: %d declaration lists (1 fixed + seeded: 0-2 struct types with grouped fields, 1-5 package-level variables, "
                    "1-4 functions referring to arbitrary variables, shuffled; %d of them are reordered by load order); behavioural "
@@ -398,7 +422,7 @@ def run(ctx):
                                         if k.startswith(("stmt:", "switch", "fallthrough", "label", "for", "range", "if", "defer", "closure", "method",
                                                          "assign", "op-assign", "incdec", "decl", "map-", "field-", "struct", "call", "exit", "uncaught",
                                                          "runtime", "package-var", "sorted-map"))},
-              switch_matrix_functions=nsw)
+              switch_matrix_functions=nsw, switch_semantics_lines_compared_per_build=len(sw_model))
     ctx.assume("the Go toolchain (go1.23.5) and the OS run both binaries deterministically; stderr is compared up to the goroutine trace",
                "//line comments are switched off (Config.NoFileLine) so that panic traces do not differ by file name")
     ctx.trust("modelled, not verified: marker constant, parenthesis dropping, struct field splitting, load-order emission; explored only: "
